@@ -18,6 +18,10 @@ def build(tier):
         # file prefixes that contain the replica separator letter themselves (also followed by a digit)
         cases.append({'kind': 'sfcf', 'layout': layout, 'reps': [1, 2, 10], 'prefix': 'run_'})
         cases.append({'kind': 'sfcf', 'layout': layout, 'reps': [1, 2], 'prefix': 'corr3x'})
+    # correlator values printed with three-digit exponents / of large magnitude
+    for layout in ('o', 'c', 'a'):
+        for scale in (1e-120, 1e150, 1e-7):
+            cases.append({'kind': 'sfcf', 'layout': layout, 'reps': [1, 2], 'scale': scale})
     cases.append({'kind': 'hadrons'})
     return cases
 
